@@ -20,9 +20,11 @@ business), then once per n = 1..N+1 with the n-th allocation failing:
                    constructors, which are a sequence of inserts: nor those of
                    a prefix of the inserts)
   garbage          a container holds keys that were never stored (stale memory)
+  stale-pointer    using the containers afterwards changes an unrelated fresh
+                   container (a freed block is still referenced)
   damage/checker   walker / _check() reject a container afterwards
   followup         20 inserts + 7 deletes afterwards do not behave like a dict
-  crash-*          the interpreter died (freed memory referenced, double free;
+  crash            the interpreter died (freed memory referenced, double free;
                    glibc MALLOC_PERTURB_ is set so that stale reads show).  Every
                    faulted call runs in a forked process of its own, so a crash
                    is attributed to exactly one (scenario, n)
@@ -79,7 +81,9 @@ def scenarios(fam, group):
         if group == "insert-leaf":
             shapes = [(kd, None, n) for kd in ("Bucket", "Set") for n in (0, 1, 15, 16, 17, 32)]
         else:
-            shapes = [(group[7:], sz, n) for sz in ([2, 2], [3, 2], [2, 3]) for n in range(0, 10)]
+            deep = H.tier() != "quick"      # thorough: more keys and one more pair of node sizes
+            shapes = [(group[7:], sz, n) for sz in [[2, 2], [3, 2], [2, 3]] + ([[4, 3]] if deep else [])
+                      for n in range(0, 16 if deep else 10)]
             shapes += [(group[7:], sz, n) for sz, n in (([40, 3], 16), ([40, 3], 32), ([20, 3], 20))]
         for kd, sz, n in shapes:
             for g in (range(0, 2 * n + 1, 2) if n < 12 else (0, n, 2 * n)):
@@ -126,7 +130,8 @@ def scenarios(fam, group):
                     if n0 and kd in TREES and sz[0] < 60:
                         continue            # replacing the state of a multi-node tree is not a public use
                     src = pickle.dumps(build(fam, kd, sz, U[0:2 * n:2], 1))
-                    yield sc("setstate-" + ("fresh" if not n0 else "populated"),
+                    # fs leaves are restored from two bytes objects by a function of their own (bucket_fromBytes)
+                    yield sc("setstate-" + ("bytes-" if fam == "fs" and kd in ("Bucket", "BTree") else "") + ("fresh" if not n0 else "populated"),
                              "%s of %d keys .__setstate__(state of %d keys)" % (kd, n0, n), sz, [("t", kd, U[1:2 * n0:2])],
                              lambda t, st: t.__setstate__(st), prep=lambda src=src: pickle.loads(src).__getstate__())
     elif group == "multiunion" and fam[0] in "IULQ" and hasattr(mod, "multiunion"):
@@ -224,15 +229,27 @@ def run_case(fam, fa, make, base, n):
         except Exception as e:
             bads.append(("damage", "%s%s: inspecting raised %s: %s" % (label, when, type(e).__name__, e)))
 
+    usable = []
     for i, (label, c, kind, sizes) in enumerate(objs):
         cont = inspect(label, c, kind, sizes, "")
         if cont is None:
+            continue
+        junk = garbage(c, kind, fam)
+        if junk:
+            bads.append(("garbage", "%s holds %r, never stored (stale memory)" % (label, junk)))
             continue
         ok = [after[i]] if exc is None else [before[i], after[i]] + [a[i] for a in accepts]
         if cont not in ok:
             bads.append(("contents", "%s holds %r after %s; previous %r, completed %r" % (
                 label, cont, "MemoryError" if exc else "completing", before[i], after[i])))
-        try:                                 # "remains ... usable"
+        usable.append((label, c, kind, sizes))
+    # witnesses: fresh containers whose arrays have the sizes BTrees frees most (16 slots, split halves); a block
+    # that a faulted container freed but still points to is handed to one of them, and the follow-up then shows
+    tsz = [sz for _, _, k, sz in objs if k in TREES][:1]
+    wit = [build(fam, "Bucket", None, H.keys_of(fam, 16)) for _ in range(3)] + [build(fam, "BTree", tsz[0], H.keys_of(fam, 9)) for _ in tsz]
+    wit0 = [H.contents(w, False) for w in wit]
+    for label, c, kind, sizes in usable:     # "remains ... usable"
+        try:
             msg = followup(c, kind, fam)
         except Exception as e:
             msg = "follow-up workload raised %s: %s" % (type(e).__name__, e)
@@ -240,6 +257,8 @@ def run_case(fam, fa, make, base, n):
             bads.append(("followup", "%s: %s" % (label, msg)))
         else:
             inspect(label, c, kind, sizes, " (after the follow-up workload)")
+    if [H.contents(w, False) for w in wit] != wit0:
+        bads.append(("stale-pointer", "using the containers afterwards changed an unrelated fresh container: freed memory is still referenced"))
     return bads, reached, exc is None and reached and not bads
 
 
@@ -320,8 +339,7 @@ def child():
             evals += 1
             if res is None:                  # the forked interpreter died
                 sig = status & 0x7f
-                what = "hang" if sig == signal.SIGALRM else "crash-double-free" if "double free" in err else \
-                    "crash-segv" if sig == signal.SIGSEGV else "crash-abort"
+                what = "hang" if sig == signal.SIGALRM else "crash"
                 reached += 1
                 report(op, kind, desc, what, "the interpreter died (wait status %d) during the call, the checks after "
                        "it or releasing the containers: %s" % (status, err), n, n_alloc)
@@ -344,12 +362,13 @@ def main():
     groups = ["insert-BTree", "insert-TreeSet", "insert-leaf", "update", "algebra", "merge", "setstate", "multiunion"]
     s = Standin(name="alloc_rt",
                 bound="C only, per family: every scenario x every n in 1..N+1 (N = wrapped allocations of the unfaulted call, "
-                      "n-th BTree_Malloc/BTree_Realloc fails): insert into every gap of trees of 0..9 keys at node sizes "
+                      "n-th BTree_Malloc/BTree_Realloc fails): insert into every gap of trees of 0..9 keys (thorough: 0..15, + 4/3) at node sizes "
                       "2/2, 3/2, 2/3 (leaf split, interior split at each level, root split), of fat-leaf trees and of "
                       "Buckets/Sets of 0,1,15,16,17,32 keys; update / constructor from a list and from a tree; union, "
                       "intersection, difference, | & -, weighted*, |= &= -= ^= on 3..30-key operands of all kinds; "
                       "_p_resolveConflict on 2/12/30-key states; __setstate__ of 1/5/40-key states on fresh and populated "
-                      "containers; multiunion; each batch in a child process (crash = failure)",
+                      "containers; multiunion; every faulted call in a forked process of its own (crash / hang = failure of "
+                      "exactly that case)",
                 rule="case = one call with the n-th allocation failing + soundness/contents/follow-up checks; distinct "
                      "non-trivial = (scenario, n) pairs in which the failing allocation was reached",
                 exhaustive=True,
